@@ -172,7 +172,7 @@ class ActionType(enum.Enum):
     def from_string(cls, name):
         """Convert string to enum, stripping 'ActionType.' if present."""
         if name.startswith("ActionType."):
-            name = name.split("ActionType.")[1]
+            name = name[len("ActionType."):]
         try:
             return cls[name]
         except KeyError:
